@@ -54,12 +54,37 @@ theorem solve_inv {S : Solver α} {st : Settings α} {r : SolveResult α} (h : S
   unfold Solver.solve at h
   obtain ⟨L, hL, h⟩ := bind_ok_inv h
   obtain ⟨p, hp, h⟩ := bind_ok_inv h
+  obtain ⟨dN, hdN, h⟩ := bind_ok_inv h
   cases h
   unfold finish at hp
   obtain ⟨u, hu, hp⟩ := bind_ok_inv hp
   cases hp
   obtain ⟨h1, h2, h3, h4, h5⟩ := unscale_postProcess_fields hu
   exact ⟨L, hL, rfl, rfl, h4, h5, h1, h2, h3⟩
+
+/-- the anatomy of a `solve()` that returned: the loop, `finish`, and the norm caches `Info.update`
+filled (`fillNorms` on the data, which nothing else in `solve()` writes) -/
+theorem solve_ok_inv {S : Solver α} {st : Settings α} {r : SolveResult α} (h : S.solve st = .ok r) :
+    ∃ L p d, S.st.runSolve st = .ok L ∧ finish st L S.solution = .ok p ∧ fillNorms p.1.data = .ok d
+      ∧ r = { S := { st := { p.1 with data := d }, solution := p.2 }, traj := L.traj } := by
+  unfold Solver.solve at h
+  obtain ⟨L, hL, h⟩ := bind_ok_inv h
+  obtain ⟨p, hp, h⟩ := bind_ok_inv h
+  obtain ⟨dN, hdN, h⟩ := bind_ok_inv h
+  cases h
+  exact ⟨L, p, dN, hL, hp, hdN, rfl⟩
+
+/-- what `fillNorms` returns: the same data, both caches `some` of what `get_normq` / `get_normb`
+answer on it -/
+theorem fillNorms_ok_inv {d d' : ProblemData α} (h : fillNorms d = .ok d') :
+    ∃ nq nb, Info.getNormq d.normq d.q d.equilibration.dinv d.equilibration.c = .ok nq
+      ∧ Info.getNormb d.normb d.b d.equilibration.einv = .ok nb
+      ∧ d' = { d with normq := some nq, normb := some nb } := by
+  unfold fillNorms at h
+  obtain ⟨nq, hq, h⟩ := bind_ok_inv h
+  obtain ⟨nb, hb, h⟩ := bind_ok_inv h
+  cases h
+  exact ⟨nq, nb, hq, hb, rfl⟩
 
 
 /-- the loop of the model is the loop of the skeleton on the oracle answers recorded in the
